@@ -460,10 +460,16 @@ static void runOp(Hist& h, const std::string& name, const Args& a, std::vector<i
   }
   if (name == "mv") {
     Slot& s = h.pool[h.slotIdx(A(1))];
-    if (s.kind == MAN) { int d = h.dest(A(0), MAN); Slot& x = h.pool[d]; x.m.reset(new Manifold(std::move(*s.m))); x.kind = MAN; x.est = s.est; h.touched.push_back(d); }
-    else if (s.kind == CS) { int d = h.dest(A(0), CS); Slot& x = h.pool[d]; x.c.reset(new CrossSection(std::move(*s.c))); x.kind = CS; h.touched.push_back(d); }
-    else throw BadOp{"move of non-live slot"};
-    s.kind = DEAD;
+    const int k = s.kind;
+    if (k != MAN && k != CS) throw BadOp{"move of non-live slot"};
+    s.kind = DEAD;  // a move does not add a live object
+    int d;
+    try { d = h.dest(A(0), k); } catch (...) { s.kind = k; throw; }
+    Slot& x = h.pool[d];
+    if (k == MAN) { x.m.reset(new Manifold(std::move(*s.m))); x.est = s.est; }
+    else x.c.reset(new CrossSection(std::move(*s.c)));
+    x.kind = k;
+    h.touched.push_back(d);
     h.note((int)A(0), "moved:" + std::to_string(A(1)));
     h.note((int)A(1), "dead");
     return;
